@@ -185,8 +185,12 @@ static void runOne(int geom, int prob, int alpha, int beta, double Rmax, double 
         printf("SKIP geom=%d prob=%d alpha=%d beta=%d what=%s\n", geom, prob, alpha, beta, e.what());
         return;
     }
+    // the harness wraps the boundary data (PoisonedBoundaryConditions); the selection table's choice is the wrapped object
+    const BoundaryConditions* rawbc = p.bc.get();
+    if (auto* pw = dynamic_cast<const PoisonedBoundaryConditions*>(rawbc))
+        rawbc = pw->inner.get();
     std::string src = demangle(typeid(*p.src).name()), ex = demangle(typeid(*p.exact).name()),
-                bc = demangle(typeid(*p.bc).name()), cf = demangle(typeid(*p.coef).name()),
+                bc = demangle(typeid(*rawbc).name()), cf = demangle(typeid(*p.coef).name()),
                 ge = demangle(typeid(*p.geo).name());
     Result R = evaluate(p, geom == 3, Rmax, nrad, nang);
     // gyro relation
